@@ -17,7 +17,7 @@ func init() {
 		"(R4) in GetAndParse/PostAndParse/PostAndParseWithRetry a body-read error with a response in hand, a non-200 status and a JSON error yield RspError{StatusCode, Body of that response} with nil results, and success needs status 200 (GetAndParse, PostAndParseWithRetry); every error a LogClient method produces itself after a response was received is such an RspError with a nil result, fetch errors are passed through with a nil result; "+
 		"(R5) the entry decoder touches the decoded leaf only after tls.Unmarshal succeeded without trailing bytes, decodes extra_data in the form selected by the leaf's entry type (for every type code 0..255 and the corners of the 16-bit range), rejects unknown types and trailing bytes, copies certificate and chain from the decoded parts; ToLogEntry / LogEntryFromLeaf / GetEntries return (nil, error) on fatal parse errors and never dereference a failed decode; "+
 		"(R11) over-long responses: every JSON decode in client, jsonclient and loglist3 is a parse of its whole input — json.Unmarshal, or a (*json.Decoder).Decode after which no return that can report success executes unless a later Decode/Token of the same decoder answered io.EOF (dec.More() is not that answer: it is false before a stray ']' or '}'); in GetAndParse the decode that fills rsp reads the body that is handed back and bytes behind the JSON value yield RspError{status, body} (R4 trailing-data.error-shape); white space behind the value stays acceptable. "+
-		"NOT covered: a public-key object modified in place between two GetSTH calls, races between a caller that replaces c.Verifier and a running GetSTH, a remembered verdict whose record is kept by value with partial stores or filled by a function that is not called from GetSTH (both reported as undecided), bytes through encoding/json and net/http (incl. unbounded bodies), other ways of showing a decoder's input exhausted (Buffered/InputOffset arithmetic, a bool travelling through a helper: reported as undecided), duplicate or unknown JSON members, panics inside the X.509 parser, the cryptographic check itself (C05), which fields are signed (C04), retry pacing (C13), errors of Body.Close and the redirect-converted-POST error of PostAndParse (plain errors by design, swallowed by the retry loop), that the log-ID test of R3 compares with the right hash (only its presence and blocking effect are decided).",
+		"NOT covered: a public-key object modified in place between two GetSTH calls, races between a caller that replaces c.Verifier and a running GetSTH, package-level variables the verification might read (none on this tree; the inputs of the verdict are read off parameters only), a remembered verdict whose record is kept by value with partial stores or filled by a function that is not called from GetSTH (both reported as undecided), bytes through encoding/json and net/http (incl. unbounded bodies), other ways of showing a decoder's input exhausted (Buffered/InputOffset arithmetic, a bool travelling through a helper: reported as undecided), duplicate or unknown JSON members, panics inside the X.509 parser, the cryptographic check itself (C05), which fields are signed (C04), retry pacing (C13), errors of Body.Close and the redirect-converted-POST error of PostAndParse (plain errors by design, swallowed by the retry loop), that the log-ID test of R3 compares with the right hash (only its presence and blocking effect are decided).",
 		runC12)
 }
 
